@@ -1,9 +1,12 @@
 package vlib
 
 import (
+	"context"
+	"errors"
 	"io"
 	"os"
 	"strings"
+	"time"
 
 	"github.com/hedzr/is"
 	"github.com/hedzr/logg/slog"
@@ -140,5 +143,42 @@ func SetFlagsVia(how int, want, mask slog.Flags) {
 				panic("vlib.SetFlagsVia: flags not as wanted")
 			}
 		}
+	}
+}
+
+// Disturb emits one record of a fixed menu on a scratch logger (destination io.Discard) immediately
+// before the record a check is about: the printing contexts are pooled, so whatever the scratch
+// record leaves behind in one (remaining message lines, key prefixes, colours, layouts, flags) is what
+// the record under test starts from. kind 0 does nothing.
+func Disturb(kind int) {
+	if kind <= 0 {
+		return
+	}
+	lg := slog.New("disturb").SetWriter(io.Discard).SetErrorWriter(io.Discard).SetLevel(slog.AlwaysLevel)
+	ctx := context.Background()
+	switch kind % 6 {
+	case 1: // coloured, multi-line message with a trailing line break, a group and an error
+		lg.SetColorMode(true)
+		lg.LogAttrs(ctx, slog.ErrorLevel, "first line\nsecond line\nthird\n", "zz", 1, slog.Group("grp", "b", 2, "a", slog.Group("in", "x", 1)), "err", errors.New("disturbing error"))
+	case 2: // JSON, nested groups, the last sorted attribute is a time named time
+		lg.SetJSONMode(true)
+		lg.LogAttrs(ctx, slog.InfoLevel, "json disturbance", slog.Group("g", slog.Group("h", "k", "v")), "time", time.Unix(1700000000, 0).UTC())
+	case 3: // logfmt, a nil value sorted last, a message that makes the buffer grow
+		lg.SetColorMode(false)
+		lg.LogAttrs(ctx, slog.WarnLevel, strings.Repeat("grow the buffer ", 200), "a", 1, "zzz", nil)
+	case 4: // coloured, a level with a background colour, empty message
+		lg.SetColorMode(true)
+		lg.LogAttrs(ctx, slog.SuccessLevel, "", "k", "v")
+	case 5: // coloured, own time layout and zone mode, an empty group, caller of another place
+		lg.SetColorMode(true)
+		lg.SetTimeFormat("2006-01-02 15:04")
+		lg.SetUTCMode(false)
+		lg.LogAttrs(ctx, slog.TraceLevel, "with layout\nand a second line", slog.Group("empty"), "d", time.Second)
+	default: // logfmt through a child logger with attributes of its own and context keys
+		lg.SetColorMode(false)
+		ch := lg.New("disturb-child").SetWriter(io.Discard).SetErrorWriter(io.Discard).SetLevel(slog.AlwaysLevel)
+		ch.Set("own", 1, slog.Group("og", "m", 1))
+		ch.SetContextKeys("rid")
+		ch.InfoContext(context.WithValue(ctx, "rid", "r-1"), "child disturbance", "k", []string{"a", "b"}) //nolint:staticcheck // string key on purpose
 	}
 }
